@@ -169,6 +169,23 @@ impl SecondaryTransaction {
                     ));
                 }
             }
+            // Likewise a row that another statement has deleted since then (its scan did not see
+            // that delete vector, which was committed while we waited for the table lock) must not
+            // be deleted, and counted, a second time.
+            for (rowset_id, deletes) in &delete_split_map {
+                let dv_ids = latest
+                    .snapshot
+                    .get_dvs_of(self.table.table_id(), *rowset_id);
+                for dv_id in dv_ids.into_iter().flatten() {
+                    let dv = self.version.get_dv(self.table.table_id(), *dv_id);
+                    if deletes.iter().any(|d| dv.contains(d.row_id)) {
+                        return Err(crate::storage::TracedStorageError::not_found(
+                            "row",
+                            format!("of rowset {rowset_id} (deleted by a concurrent statement, retry the statement)"),
+                        ));
+                    }
+                }
+            }
         }
 
         let mut dvs = vec![];
